@@ -51,6 +51,7 @@ type action struct {
 	Kind    string `json:"kind"` // live write deliver alter corrupt stop writeInSelect
 	Descr   string `json:"descr"`
 	filter  sqlgen.Filter
+	filter2 sqlgen.Filter // a second live query of the same shape made by the same computation
 	batched bool
 	wkind   string // insert update delete upsert
 	row     interface{}
@@ -60,6 +61,8 @@ type action struct {
 
 type liveQuery struct {
 	filter          sqlgen.Filter
+	filter2         sqlgen.Filter
+	rows2           []string
 	descr           string
 	rr              *reactive.Rerunner
 	mu              sync.Mutex
@@ -75,6 +78,9 @@ var filterCols = map[string][]string{
 	"row_b": {"id", "shard", "p_i", "p_i32", "p_u16", "p_b", "p_s", "p_t"},
 	"row_c": {"key", "shard", "tx", "p_tx", "bin", "i_n_s", "ini"},
 }
+
+// two adjacent text columns per table (for the twin live queries)
+var twinCols = map[string][2]string{"row_a": {"n", "s"}, "row_b": {"p_n", "p_s"}, "row_c": {"key", "shard"}}
 
 func variant(t *rapid.T, v reflect.Value) interface{} {
 	if v.Kind() == reflect.Ptr {
@@ -145,6 +151,50 @@ func gen(t *rapid.T) world {
 			sort.Strings(parts)
 			a.batched = rapid.Bool().Draw(t, "batched")
 			a.Descr = "live{" + strings.Join(parts, ",") + "}"
+			if len(cols) > 0 && rapid.IntRange(0, 2).Draw(t, "second") == 0 {
+				// the same computation asks a second question of the same shape (same columns,
+				// other values)
+				src2 := reflect.ValueOf(sw.TruncSeconds(sw.GenRow(t, w.table, rapid.IntRange(1, 8).Draw(t, "srcid2")))).Elem()
+				a.filter2 = sqlgen.Filter{}
+				var parts2 []string
+				for _, c := range cols {
+					val := variant(t, src2.FieldByIndex(tbl.ColumnsByName[c].Index))
+					a.filter2[c] = val
+					parts2 = append(parts2, fmt.Sprintf("%s=%T(%v)", c, val, deref(val)))
+				}
+				sort.Strings(parts2)
+				a.Descr += "+live{" + strings.Join(parts2, ",") + "}"
+			} else if pair := twinCols[w.table]; rapid.IntRange(0, 5).Draw(t, "twin") == 0 {
+				// two questions over the same two text columns whose values are different
+				// splits of one string: ("a","b") and ("ab","")
+				x := rapid.SampledFrom([]string{"a", "b", "ab", "ab"}).Draw(t, "twinx")
+				i := rapid.IntRange(0, len(x)).Draw(t, "spliti")
+				j := rapid.IntRange(0, len(x)-1).Draw(t, "splitj")
+				if j >= i {
+					j++
+				}
+				mk := func(k int) sqlgen.Filter {
+					f := sqlgen.Filter{}
+					for n, c := range pair {
+						str := x[:k]
+						if n == 1 {
+							str = x[k:]
+						}
+						ft := tbl.Type.FieldByIndex(tbl.ColumnsByName[c].Index).Type
+						v := reflect.New(ft).Elem()
+						if ft.Kind() == reflect.Ptr {
+							v.Set(reflect.New(ft.Elem()))
+							v.Elem().SetString(str)
+						} else {
+							v.SetString(str)
+						}
+						f[c] = v.Interface()
+					}
+					return f
+				}
+				a.filter, a.filter2 = mk(i), mk(j)
+				a.Descr = fmt.Sprintf("live{%s=%q,%s=%q}+live{%s=%q,%s=%q}", pair[0], x[:i], pair[1], x[i:], pair[0], x[:j], pair[1], x[j:])
+			}
 		case "write", "writeInSelect", "writeAfterSelect":
 			a.wkind = rapid.SampledFrom([]string{"insert", "update", "update", "delete", "upsert"}).Draw(t, "wkind")
 			if w.table == "row_a" && a.wkind == "upsert" {
@@ -309,7 +359,7 @@ func check(w world) (nt bool, labels []string, sig string, err error) {
 		qmu.Lock()
 		startCommits := commits
 		qmu.Unlock()
-		lq := &liveQuery{filter: a.filter, descr: a.Descr, startedAtCommit: startCommits}
+		lq := &liveQuery{filter: a.filter, filter2: a.filter2, descr: a.Descr, startedAtCommit: startCommits}
 		lq.rr = reactive.NewRerunner(ctx, func(ctx context.Context) (interface{}, error) {
 			if a.batched {
 				ctx = batch.WithBatching(ctx)
@@ -323,7 +373,16 @@ func check(w world) (nt bool, labels []string, sig string, err error) {
 				lq.err = err
 				return nil, err
 			}
-			lq.rows = describeRows(res.Elem())
+			var rows2 []string
+			if lq.filter2 != nil {
+				res2 := reflect.New(reflect.SliceOf(reflect.PtrTo(typ)))
+				if err := ldb.Query(ctx, res2.Interface(), lq.filter2, nil); err != nil {
+					lq.err = err
+					return nil, err
+				}
+				rows2 = describeRows(res2.Elem())
+			}
+			lq.rows, lq.rows2 = describeRows(res.Elem()), rows2
 			return nil, nil
 		}, 0, false)
 		lives = append(lives, lq)
@@ -443,7 +502,7 @@ func check(w world) (nt bool, labels []string, sig string, err error) {
 				return false, nil, "harness", fmt.Errorf("harness: fresh query failed: %v", err)
 			}
 			lq.mu.Lock()
-			got, qerr, runs := lq.rows, lq.err, lq.runs
+			got, got2, qerr, runs := lq.rows, lq.rows2, lq.err, lq.runs
 			lq.mu.Unlock()
 			if qerr != nil {
 				if strings.Contains(qerr.Error(), "harness:") {
@@ -453,6 +512,15 @@ func check(w world) (nt bool, labels []string, sig string, err error) {
 			}
 			if strings.Join(got, "|") != strings.Join(want, "|") {
 				lastErr = fmt.Errorf("live query %d %s (ran %d times) holds\n  %v\nbut the database now returns\n  %v", i, lq.descr, runs, got, want)
+			}
+			if lq.filter2 != nil && qerr == nil {
+				want2, err := fresh(lq.filter2)
+				if err != nil {
+					return false, nil, "harness", fmt.Errorf("harness: fresh query failed: %v", err)
+				}
+				if strings.Join(got2, "|") != strings.Join(want2, "|") {
+					lastErr = fmt.Errorf("second query of live computation %d %s (ran %d times) holds\n  %v\nbut the database now returns\n  %v", i, lq.descr, runs, got2, want2)
+				}
 			}
 		}
 		if lastErr == nil || time.Now().After(deadline) {
